@@ -262,3 +262,46 @@ Proof.
     transitivity (crlf ++ (a ++ [13; 10; 13; 10] ++ c)); [exact (f_equal (app crlf) Heq)|].
     change [13; 10; 13; 10] with ([13; 10] ++ [13; 10]). rewrite <- !app_assoc. reflexivity.
 Qed.
+
+(* ------------------------------------------------------------------ mixed line ends *)
+(* an end of line of an event stream *)
+Definition eols : list str := [[10]; [13]; [13; 10]].
+
+(* whatever two ends of line make up the empty line, their last two bytes are LF LF, CR CR,
+   LF CR or CR LF *)
+Lemma blank_line_tail e1 e2 :
+  In e1 eols -> In e2 eols ->
+  exists p x, In p [(10, 10); (13, 13); (10, 13); (13, 10)] /\ e1 ++ e2 = x ++ [fst p; snd p].
+Proof.
+  intros H1 H2. simpl in H1, H2.
+  destruct H1 as [<- | [<- | [<- | []]]]; destruct H2 as [<- | [<- | [<- | []]]].
+  - exists (10, 10), []. simpl. auto.
+  - exists (10, 13), []. simpl. auto.
+  - exists (13, 10), [10]. simpl. auto 6.
+  - exists (13, 10), []. simpl. auto 6.
+  - exists (13, 13), []. simpl. auto.
+  - exists (13, 10), [13]. simpl. auto 6.
+  - exists (10, 10), [13]. simpl. auto.
+  - exists (10, 13), [13]. simpl. auto.
+  - exists (13, 10), [13; 10]. simpl. auto 6.
+Qed.
+
+(* T02_blank_line_delivered: the write in which an empty line (any mixture of LF, CR, CRLF)
+   is completed flushes; completed = its last byte is in the write, which for a final CR is
+   the CR itself (a parser that takes CR as an end of line at once needs no later byte) *)
+Theorem blank_line_delivered :
+  flush_straddle_check = true -> flush_contains_check = true ->
+  forall pats, In (10, 10) pats -> In (13, 13) pats -> In (10, 13) pats -> In (13, 10) pats ->
+  Forall (fun p => fst p <> 0) pats ->
+  forall ws0 x ws1 w ws2 e1 e2 a c,
+    In e1 eols -> In e2 eols -> x <> [] -> Forall (fun y => y <> []) ws1 ->
+    concat (x :: ws1) ++ w = a ++ (e1 ++ e2) ++ c -> (length c < length w)%nat ->
+    nth_error (flush_flags pats (ws0 ++ (x :: ws1) ++ w :: ws2)) (length ws0 + length (x :: ws1)) = Some true.
+Proof.
+  intros Hs Hc pats P1 P2 P3 P4 Hnz ws0 x ws1 w ws2 e1 e2 a c H1 H2 Hx Hne Heq Hlen.
+  apply (flush_iff_boundary_after Hs Hc pats ws0 x ws1 w ws2 Hnz Hx Hne).
+  destruct (blank_line_tail e1 e2 H1 H2) as (p & y & Hp & Ht).
+  exists p, (a ++ y), c. split.
+  - simpl in Hp. destruct Hp as [<- | [<- | [<- | [<- | []]]]]; assumption.
+  - split; [|exact Hlen]. transitivity (a ++ (e1 ++ e2) ++ c); [exact Heq|]. rewrite Ht, <- !app_assoc. reflexivity.
+Qed.
